@@ -5,7 +5,7 @@
 EXTENDS Naturals, Sequences, TLC, TraceIO, SequencesExt
 CONSTANTS BigIds, BigLens, MidIds, MidLens, D1, D2, D3
 
-Starts == <<"fresh", "onebyte", "twobyte", "legacy", "um_onebyte", "um_twobyte", "um_legacy", "um_dup">>
+Starts == <<"fresh", "onebyte", "twobyte", "legacy", "um_onebyte", "um_twobyte", "um_legacy", "um_dup", "um_onebyte_plain", "um_twobyte_plain">>
 Ops(ids, lens) ==
   SetToSeq({ [op |-> "set", id |-> id, len |-> n, src |-> 0] : id \in ids, n \in lens }
            \cup { [op |-> "del", id |-> id, len |-> 0, src |-> 0] : id \in ids })
